@@ -23,7 +23,9 @@ CHECK = "C20"
 RULE = (
     "label files: generated well-formed (5 dialect spellings), with missing "
     "values, token-damaged, with trailing binary after END, non-ASCII, and "
-    "every tests/data file; pvl_translate -of {PDS3,ODL,ISIS,PVL,JSON} "
+    "every tests/data file, and 19 small labels around what one or another "
+    "encoder refuses (in a shuffled order: the tools keep one instance per "
+    "format for the life of the process); pvl_translate -of {PDS3,ODL,ISIS,PVL,JSON} "
     "(stdout, explicit outfile, stdin) and pvl_validate (one file, many "
     "files); most in-process with captured stdout, a sample as real "
     "subprocesses. distinct = (file id, tool, format); non-trivial = all"
@@ -304,10 +306,44 @@ def validate_case(rec, pvl, paths, fids, kinds):
                               {"file": fid, "row": row}, f"{rep.get(row)} vs {exp[row]}")
 
 
+# Small labels around what one or the other encoder refuses (and its accepted
+# neighbour): both tools keep one encoder / parser per format for the life of
+# the process, so a refusal must not change what the next file gets.
+HAZARD_TEXTS = [
+    "a = (((1, 2), (3, 4)), ((5, 6), (7, 8)))\nEND\n",      # 3-D: ODL/PDS3 refuse
+    "a = ((1, 2), (3, 4))\nEND\n",                          # 2-D: fine
+    "a = (1, 2, 3)\nb = ((1), (2))\nEND\n",
+    "a = ()\nEND\n",                                        # empty: ODL/PDS3 refuse
+    "a = {}\nb = {1, 2}\nEND\n",
+    "a = {{1, 2}, 3}\nEND\n",                               # nested set
+    "a = (1, {2, 3})\nEND\n",                               # set inside sequence
+    "a = \"text\" <m>\nEND\n",                              # units on a string
+    "a = (1, 2) <m>\nb = 5 <m>\nEND\n",                     # units on a sequence
+    "a = 23:59:60\nb = 12:00:00\nEND\n",                    # leap second text
+    "a = 12:00:00.123456\nb = 12:00:00.123\nEND\n",         # sub-ms: PDS3 refuses
+    "a = 2001-01-01T12:00:00+05:00\nb = 2001-01-01T12:00:00Z\nEND\n",
+    "a_parameter_name_longer_than_thirty_chars = 1\nshort = 2\nEND\n",
+    "a.b = 1\nEND\n",                                       # not an ODL identifier
+    "a = 'it\"s'\nb = \"it's\"\nEND\n",
+    "GROUP = g\n a = 1\n GROUP = h\n  b = 2\n END_GROUP\nEND_GROUP\nEND\n",
+    "GROUP = g\n a = 1\n a = 2\nEND_GROUP\nEND\n",
+    "OBJECT = o\n a = 1\nEND_OBJECT\nGROUP = g\n b = 2\nEND_GROUP\nEND\n",
+    "a = 1\nEND\n",
+]
+
+
 def make_files(pvl, tmp, rng, tier, part, nparts):
     """Yield (path, file id, kind)."""
     n = 60 if tier == "quick" else 2000
     pool = replacement_pool()
+    order = list(range(len(HAZARD_TEXTS)))
+    for rep in range(1 if tier == "quick" else 4):
+        rng.shuffle(order)
+        for hi in order:
+            path = os.path.join(tmp, f"h{rep}_{hi}.lbl")
+            with open(path, "w") as f:
+                f.write(HAZARD_TEXTS[hi])
+            yield path, f"hazard:{hi}", "hazard"
     for j in range(part, n, nparts):
         reader = gt.READERS[j % 5]
         while True:
@@ -430,7 +466,8 @@ def finish_kwargs(rec, tier):
            "translate_stdin_runs", "validate_runs[single]", "validate_runs[many]",
            "validate_cells_compared", "subprocess_runs[pvl_translate]",
            "subprocess_runs[pvl_validate]", "files[corpus]", "files[damaged]",
-           "files[missing-values]", "files[trailing-binary]", "files[non-ascii]"]
+           "files[missing-values]", "files[trailing-binary]", "files[non-ascii]",
+           "files[hazard]"]
     req += [f"translate[{f}][ok]" for f in FORMATS]
     return dict(required_counters=req,
                 assumptions=["the harness's own dialect table (DESIGN 3.1), not "
